@@ -813,8 +813,6 @@ KNOWN_UNVISITED = {
     ("clickhouse.array.HasAny", "_left_array"): "C15-ch-hasany-left", ("clickhouse.array.HasAny", "_right_array"): "C15-ch-hasany-right",
     ("clickhouse.array._AbstractArrayFunction", "_array"): "C15-ch-arrayfunction-raises",
     ("clickhouse.type_conversion.ToFixedString", "_field"): "C15-ch-tofixedstring-field",
-    ("dialects.PostgreSQLQueryBuilder", "_using"): "C15-pg-using",
-    ("terms.BitwiseAndCriterion", "value"): "C15-bitand-value", ("terms.Values", "field"): "C15-values-field",
 }
 
 
